@@ -77,6 +77,10 @@ CLAIMED = {
    "All 9 projections x a lattice of configurations (centres / origins every 30 degrees incl. poles and +-180, standard parallel pairs over {+-10,+-30,+-60}^2 in both orders minus the singular ones, radii 1 and WGS84 mean, zoom 0..30) x every point of a graticule (5 degrees quick, 2 degrees thorough, 1 degree for every 97th configuration) and of the same graticule shifted by 0.37 degrees - enumeration replaces the quantifier's random points - clipped to each implementation's one-to-one domain, plus the centre / origin itself and points on the standard parallels: Forward finite, Reverse(Forward(p)) within 1e-9 degrees (NaN fails), and the documented local character by central differences: |det J| = R^2 cos(lat) for the equal-area ones, orthogonal equal-length scaled partials for the conformal ones, distance from the centre for the azimuthal equidistant, unit meridian scale for the equidistant conic, true scale on standard parallels, Web Mercator world square and southward y.",
    "The continuum of configurations and points is covered on lattices only; nothing is claimed between nodes. Jacobians by central differences with h = 1e-4 degrees, tolerance 1e-6 relative.",
    "exhaustive enumeration of a configuration x graticule lattice on the real code against closed-form characterisations", "4/C19"),
+ "C20": ("model_checking",
+   "Argument pools of empties (zero value of Geometry and of each concrete type, typed empties in 4 coordinate types, Multi* and collections of 1..3 empties of mixed types, nested empty collections) are fed to every exported method of the 8 geometry types, Envelope and Sequence (found by reflection; every argument tuple from small pools for int, float, coordinates type, bool, XY, envelope, transform and geometry parameters) and to a table of 23 free functions over all ordered pairs with at least one empty operand: no panic outside an explicit allow-list of documented ones, neutral answers (IsEmpty, zero measures, empty centroid/hull/envelope, undefined distance, Relate closed forms from the exact oracle, Union/Difference/SymmetricDifference = UnaryUnion of the other operand), encodings re-decodable, and the zero Geometry compared call by call with GeometryCollection{}.AsGeometry(). Transparency: 20 non-empty geometries of every type x an empty member of 10 kinds inserted at every position (and same-typed Multi* variants) x 5-8 other operands: measures, envelope, hull, validity, DE-9IM both ways, 10 predicates both ways, distance and the point set of 7 set operations (against the exact arrangement) must not change.",
+   "Variadic option parameters are exercised with no options here (each option has its own property). Pointer-receiver decoders (Scan, UnmarshalJSON) are C08's subject.",
+   "bounded-exhaustive enumeration of callees x argument tuples on the real code, differential (with / without empty member, zero value vs empty collection) and against neutral-answer tables", "4/C20"),
 }
 
 PENDING = {}
